@@ -1,3 +1,201 @@
-//! C05 — not built yet.
+//! C05 — solver verdicts and optimal values are correct.
+//!
+//! Small LP / MILPs (≤ 4 variables, ≤ 5 rows, integer data) from structured families through all five entry points
+//! (killable worker); each answer is compared by the Lean oracle with the exact, CERTIFIED verdict (rational simplex
+//! + certificate checker, MILP by certified enumeration).  The wrapper models (verdict / status mapping arms) are
+//! diffed like in C04.
 use crate::case::Case;
-pub fn generate(_seed: u64, _n: usize, _thorough: bool, _corpus: Option<&str>) -> Vec<Case> { vec![] }
+use crate::child::{self, Opts, Outcome, SolverKind};
+use crate::gen_lp::{self, Doms, LpCfg};
+use crate::props::c04::show_model;
+use crate::rng::Rng;
+use crate::sx;
+use rooc::{Comparison, LinearModel, OptimizationType, VariableType};
+use std::time::Duration;
+
+pub const TIMEOUT: Duration = Duration::from_millis(1500);
+
+fn free() -> VariableType { VariableType::Real(f64::NEG_INFINITY, f64::INFINITY) }
+fn nonneg() -> VariableType { VariableType::NonNegativeReal(0.0, f64::INFINITY) }
+fn small(r: &mut Rng) -> f64 { r.range(-3, 3) as f64 }
+fn sense(r: &mut Rng) -> OptimizationType { if r.chance(1, 2) { OptimizationType::Min } else { OptimizationType::Max } }
+
+/// free variables and an objective that is constant along some direction of the feasible set (unbounded optimal faces)
+fn fam_free_face(r: &mut Rng) -> LinearModel {
+    let nv = 2 + r.below(3);
+    let nr = 1 + r.below(4);
+    let mut m = LinearModel::new();
+    for i in 0..nv { m.add_variable(&format!("v{}", i), if r.chance(3, 4) { free() } else { nonneg() }); }
+    let mut rows = vec![];
+    for _ in 0..nr {
+        let cs: Vec<f64> = (0..nv).map(|_| small(r)).collect();
+        rows.push(cs.clone());
+        m.add_constraint(cs, gen_lp::cmp3(r, 40), r.range(-5, 5) as f64);
+    }
+    // objective = combination of rows (flat on their common null space), sometimes perturbed
+    let mut obj = vec![0.0; nv];
+    for row in &rows { let k = r.range(-1, 2) as f64; for j in 0..nv { obj[j] += k * row[j]; } }
+    if r.chance(1, 4) { let j = r.below(nv); obj[j] += small(r); }
+    m.set_objective(obj, sense(r));
+    m
+}
+
+/// rows that contradict each other on some variables + an improving ray on others (primal AND dual infeasible)
+fn fam_both_infeasible(r: &mut Rng) -> LinearModel {
+    let nv = 2 + r.below(3);
+    let mut m = LinearModel::new();
+    for i in 0..nv { m.add_variable(&format!("v{}", i), if r.chance(1, 2) { free() } else { nonneg() }); }
+    let k = 1 + r.below(nv - 1); // contradiction lives on v0..v{k-1}
+    let cs: Vec<f64> = (0..nv).map(|j| if j < k { let c = small(r); if c == 0.0 { 1.0 } else { c } } else { 0.0 }).collect();
+    let b = r.range(-3, 3) as f64;
+    m.add_constraint(cs.clone(), Comparison::LessOrEqual, b);
+    m.add_constraint(cs.clone(), Comparison::GreaterOrEqual, b + 1.0 + r.below(3) as f64);
+    for _ in 0..r.below(3) {
+        let cs: Vec<f64> = (0..nv).map(|_| small(r)).collect();
+        m.add_constraint(cs, gen_lp::cmp3(r, 20), r.range(-4, 6) as f64);
+    }
+    let s = sense(r);
+    let sign = if matches!(s, OptimizationType::Min) { -1.0 } else { 1.0 };
+    let obj: Vec<f64> = (0..nv).map(|j| if j >= k { sign * (1 + r.below(3)) as f64 } else { small(r) }).collect();
+    m.set_objective(obj, s);
+    m
+}
+
+/// redundant (multiples, sums) and degenerate rows
+fn fam_redundant(r: &mut Rng) -> LinearModel {
+    let nv = 1 + r.below(4);
+    let mut m = LinearModel::new();
+    for i in 0..nv { let d = if r.chance(1, 4) { Doms::Mixed } else { Doms::Continuous }; m.add_variable(&format!("v{}", i), gen_lp::domain(r, d)); }
+    let mut rows: Vec<(Vec<f64>, Comparison, f64)> = vec![];
+    let base = 1 + r.below(2);
+    for _ in 0..base {
+        rows.push(((0..nv).map(|_| small(r)).collect(), gen_lp::cmp3(r, 50), r.range(-2, 6) as f64));
+    }
+    while rows.len() < 5 && r.chance(3, 4) {
+        let (cs, c, b) = rows[r.below(rows.len())].clone();
+        match r.below(3) {
+            0 => { let k = *r.pick(&[2.0, -1.0, 3.0, -2.0]); let c2 = if k < 0.0 { match c { Comparison::LessOrEqual => Comparison::GreaterOrEqual, Comparison::GreaterOrEqual => Comparison::LessOrEqual, c => c } } else { c };
+                   rows.push((cs.iter().map(|x| x * k).collect(), c2, b * k)); }
+            1 => { let (cs2, _, b2) = rows[r.below(rows.len())].clone(); rows.push((cs.iter().zip(&cs2).map(|(a, b)| a + b).collect(), c, b + b2)); }
+            _ => rows.push((cs, c, b)),
+        }
+    }
+    for (cs, c, b) in rows { m.add_constraint(cs, c, b); }
+    let obj = (0..nv).map(|_| small(r)).collect();
+    m.set_objective(obj, sense(r));
+    m
+}
+
+/// empty rows: `0 = 1`, `0 <= -1`, `0 >= 0`, …
+fn fam_empty_rows(r: &mut Rng) -> LinearModel {
+    let (mut m, _) = gen_lp::model(r, &LpCfg { max_rows: 3, naming: 0, allow_satisfy: false, ..LpCfg::default() });
+    let nv = m.variables().len();
+    for _ in 0..1 + r.below(2) {
+        m.add_constraint(vec![0.0; nv], gen_lp::cmp3(r, 50), r.range(-1, 1) as f64);
+    }
+    m
+}
+
+pub fn family(r: &mut Rng, i: usize) -> (LinearModel, &'static str) {
+    if i % 16 == 15 { return (crate::props::c04::variable_free(r), "variable-free"); }
+    match i % 8 {
+        0 => (fam_free_face(r), "free-face"),
+        1 => (fam_both_infeasible(r), "primal-dual-infeasible"),
+        2 => (fam_redundant(r), "redundant-degenerate"),
+        3 => (fam_empty_rows(r), "empty-rows"),
+        4 => (gen_lp::model(r, &LpCfg { doms: Doms::Continuous, eq_pct: 80, naming: 0, feasible_pct: 70, allow_satisfy: false, ..LpCfg::default() }).0, "equality-dense"),
+        5 => (gen_lp::model(r, &LpCfg { doms: Doms::Integer, naming: 0, ..LpCfg::default() }).0, "integer"),
+        6 => (gen_lp::model(r, &LpCfg { doms: Doms::Mixed, naming: 0, ..LpCfg::default() }).0, "mixed"),
+        _ => (gen_lp::model(r, &LpCfg { doms: Doms::Continuous, naming: 0, feasible_pct: 30, ..LpCfg::default() }).0, "continuous-random"),
+    }
+}
+
+pub fn cases_for(lm: &LinearModel, fam: &str, variants: &gen_lp::Variants, out: &mut Vec<Case>) {
+    let lms = sx::lin_model(lm);
+    let opts = Opts::default();
+    let cont = gen_lp::is_continuous(lm);
+    // once one call on this model has hung, the remaining calls get a short limit (these models solve in microseconds)
+    let hung = std::cell::Cell::new(false);
+    let call = |k: SolverKind| {
+        let o = child::solve(k, lm, &opts, if hung.get() { Duration::from_millis(400) } else { TIMEOUT });
+        if matches!(o, Outcome::Hang) { hung.set(true); }
+        o
+    };
+    let raw_milp = call(SolverKind::RawMilp);
+    for kind in SolverKind::ENTRY_POINTS {
+        let o = call(kind);
+        let res = gen_lp::result(&o);
+        let mut c = Case::default();
+        c.imp = res.clone();
+        c.req = match kind {
+            SolverKind::Milp => gen_lp::mlp(&raw_milp).map(|r| format!("{} {} {}", if variants.milp_reads_status { "milp-wrap-fixed" } else { "milp-wrap" }, lms, r)),
+            SolverKind::Auto => gen_lp::mlp(&raw_milp).map(|r| format!("auto-wrap {} {}", lms, r)),
+            SolverKind::MicroLp => gen_lp::mlp(&call(SolverKind::RawMicroLp)).map(|r| format!("microlp-wrap {} {}", lms, r)),
+            SolverKind::Clarabel => gen_lp::clarabel_req(lm, &lms, variants, if hung.get() { Duration::from_millis(400) } else { TIMEOUT }),
+            _ => None,
+        }.unwrap_or_default();
+        if matches!(o, Outcome::Hang) { c.req.clear(); }
+        c.oracle = format!("verdict {} {} {} {}", lms, kind.name(), res, sx::q(&gen_lp::err_msg(&o)));
+        c.tags = vec![
+            format!("family-{}", fam),
+            format!("solver-{}", kind.name()),
+            if cont { "model-continuous".into() } else { "model-mixed-integer".into() },
+            match &o {
+                Outcome::Solution(_) => "answer-solution".to_string(),
+                Outcome::Err { variant, .. } => format!("answer-err-{}", variant),
+                Outcome::Panic(_) => "answer-panic".into(),
+                Outcome::Hang => "answer-hang".into(),
+            },
+        ];
+        c.nontrivial = !matches!(&o, Outcome::Err { variant, .. } if variant == "InvalidDomain" || variant == "UnimplementedOptimizationType");
+        c.show = format!("{} on: {}", kind.name(), show_model(lm));
+        out.push(c);
+    }
+}
+
+/// the confirmed defects of the design phase, replayed first (liveness of the whole pipeline)
+pub fn seeded() -> Vec<(LinearModel, &'static str)> {
+    let mut v = vec![];
+    // (a) microlp never returns
+    let mut m = LinearModel::new();
+    m.add_variable("v0", free()); m.add_variable("v1", free()); m.add_variable("v2", nonneg());
+    m.add_constraint(vec![-1.0, -1.0, -3.0], Comparison::LessOrEqual, 5.0);
+    m.add_constraint(vec![-3.0, -3.0, 0.0], Comparison::Equal, -4.0);
+    m.add_constraint(vec![-3.0, -3.0, 1.0], Comparison::Equal, -1.0);
+    m.set_objective(vec![1.0, 1.0, 3.0], OptimizationType::Min);
+    v.push((m, "seeded-microlp-hang"));
+    // (b) microlp: Unbounded for an optimum on an unbounded optimal face
+    let mut m = LinearModel::new();
+    m.add_variable("v0", free()); m.add_variable("v1", free());
+    m.add_constraint(vec![2.0, 0.0], Comparison::LessOrEqual, -3.0);
+    m.add_constraint(vec![-3.0, 3.0], Comparison::Equal, 5.0);
+    m.set_objective(vec![-1.0, 1.0], OptimizationType::Min);
+    v.push((m, "seeded-microlp-unbounded"));
+    // (c)/(d) primal and dual infeasible
+    let mut m = LinearModel::new();
+    m.add_variable("v0", nonneg()); m.add_variable("v1", free());
+    m.add_constraint(vec![1.0, 0.0], Comparison::LessOrEqual, 1.0);
+    m.add_constraint(vec![1.0, 0.0], Comparison::GreaterOrEqual, 2.0);
+    m.set_objective(vec![0.0, 1.0], OptimizationType::Min);
+    v.push((m, "seeded-primal-dual-infeasible"));
+    // clarabel: `Solved` with a diverging point on an unbounded model (found by the thorough tier)
+    let mut m = LinearModel::new();
+    m.add_variable("v0", free()); m.add_variable("v1", free()); m.add_variable("v2", free()); m.add_variable("v3", nonneg());
+    m.add_constraint(vec![1.0, -3.0, 3.0, -2.0], Comparison::Equal, 6.0);
+    m.set_objective(vec![0.0, 0.0, -3.0, 2.0], OptimizationType::Min);
+    v.push((m, "seeded-clarabel-diverging"));
+    v
+}
+
+pub fn generate(seed: u64, n: usize, _thorough: bool, _corpus: Option<&str>) -> Vec<Case> {
+    let mut r = Rng::new(seed);
+    let mut cases = vec![];
+    let variants = gen_lp::detect_variants();
+    for (lm, tag) in seeded() { cases_for(&lm, tag, &variants, &mut cases); }
+    for i in 0..n {
+        let (lm, fam) = family(&mut r, i);
+        cases_for(&lm, fam, &variants, &mut cases);
+    }
+    child::shutdown();
+    cases
+}
